@@ -1,0 +1,19 @@
+//go:build verif
+
+// Contracts for package transport (comment-only; read by /verif/govc).
+
+package transport
+
+//@ struct conn
+//@   lock Mutex level 60
+//@   guarded_by Mutex: open
+//@   immutable: c proto
+//@
+//@ struct connHandshaker
+//@   lock Mutex level 55
+//@   guarded_by Mutex: workq doneq closed
+//@   cond cv uses Mutex
+//@   immutable: cv
+//@
+//@ func (*conn).handshake
+//@   private
